@@ -97,6 +97,9 @@ def reference_matrix():
         "self": "TYPE @x\n@x\n",
         "cycle": "TYPE @x\n@y\nTYPE @y\n@x\n",
         "or": "TYPE @x\n@y | @z\nTYPE @y\n{\n  \"id\": 1\n}\nTYPE @z regex\n/a/\n",
+        "or_self": "TYPE @x\n@x | @y\nTYPE @y\n{\n  \"id\": 1\n}\n",
+        "or_cycle": "TYPE @x\n@y | @w\nTYPE @y\n@x | @w\nTYPE @w\n{\n  \"id\": 1\n}\n",
+        "or_objects": "TYPE @x\n@y | @w\nTYPE @y\n{\n  \"a\": 1\n}\nTYPE @w\n{\n  \"id\": 1\n}\n",
         "array_of_ref": "TYPE @x\n[@y]\nTYPE @y regex\n/a/\n",
         "allof_regex": "TYPE @x\n{ // {allOf: \"@y\"}\n  \"id\": 1\n}\nTYPE @y regex\n/a/\n",
         "allof_any": "TYPE @x\n{ // {allOf: \"@y\"}\n  \"id\": 1\n}\nTYPE @y any\n",
